@@ -149,6 +149,137 @@ def tv_stage(ctx, broken, items, got):
             "tv_disagreements": len(dis)}, dis
 
 
+COMPSER_SRC = os.path.join(VERIF, "harness/C02/compser.c")
+
+
+def _compser_and_model(hx, exe, cases):
+    """cases: (id, source).  Real compiler (raw, see compser.c) and compiler model on the same expanded forms.
+    -> dict id -> (real text | None, model text | None, same flag | None, skip reason | None), error"""
+    fd, path = tempfile.mkstemp(prefix="c02comp-", suffix=".txt", dir="/var/tmp")
+    try:
+        with os.fdopen(fd, "w") as f:
+            for cid, src in cases:
+                f.write("#CASE %s 1\n%s" % (cid, src if src.endswith("\n") else src + "\n"))
+        r = subprocess.run([hx, path], stdout=subprocess.PIPE, stderr=subprocess.PIPE, timeout=300)
+    finally:
+        os.unlink(path)
+    if r.returncode != 0:
+        return None, "compser rc=%s %s" % (r.returncode, r.stderr.decode(errors="replace")[-300:])
+    lines = r.stdout.decode(errors="replace").splitlines()
+    inp = [l for l in lines if l.startswith("glob ") or l.startswith("comp ")]
+    try:
+        m = subprocess.run([exe], input=("\n".join(inp) + "\n").encode(), stdout=subprocess.PIPE, stderr=subprocess.PIPE, timeout=600)
+    except subprocess.TimeoutExpired:
+        return None, "model driver timeout (comp)"
+    if m.returncode != 0:
+        return None, "model driver rc=%s %s" % (m.returncode, m.stderr.decode(errors="replace")[-300:])
+    outs = m.stdout.decode(errors="replace").split("\n")
+    res = {}
+    for l, o in zip(inp, outs):
+        if l.startswith("comp "):
+            res[l.split(" ", 2)[1]] = {"model": o, "form": l.split(" ", 2)[2] if l.count(" ") >= 2 else ""}
+    for l in lines:
+        if l.startswith("real "):
+            _, cid, text = l.split(" ", 2)
+            res.setdefault(cid, {})["real"] = text
+        elif l.startswith("same "):
+            _, cid, flag = l.split(" ", 2)
+            res.setdefault(cid, {})["same"] = flag.strip() == "1"
+        elif l.startswith("skip "):
+            parts = l.split(" ", 2)
+            res.setdefault(parts[1], {})["skip"] = parts[2] if len(parts) > 2 else ""
+    nglob = sum(1 for l in inp if l.startswith("glob "))
+    return (res, nglob), None
+
+
+SMAP_RE = None
+
+
+def _strip_smap(t):
+    import re
+    return re.sub(r" smap( -?\d+:-?\d+)*", " smap", t)
+
+
+def compile_stage(ctx, broken, quick, general_items):
+    """tie of Compile/Model.lean (compile.c + specials.c for the core fragment): for every generated program inside the
+    fragment the model's funcdef tree -- instruction words, constants, environments, source map, closure bitset, arities,
+    slot count, nested defs -- must equal the REAL compiler's, text for text.  Programs outside the fragment are counted.
+    Two input families: the dedicated in-fragment generator (compgen.py x 10 contexts) and the general generator's programs
+    (all contexts of the check) to measure which fraction of those the fragment reaches."""
+    from . import compgen
+    exe = ctx.driver()
+    if exe is None:
+        return {"comp_cases": 0}
+    try:
+        hx = ctx.build.harness("plain", "c02compser", [COMPSER_SRC])
+    except BuildError as e:
+        broken.append("harness compser.c (wrapper TU around compile.c) does not compile against the current tree: %s" % str(e)[-300:])
+        ctx.broken.append(broken[-1])
+        return {"comp_cases": 0}
+    nprog = 250 if quick else 4000
+    if broken:
+        nprog *= 3
+    progs = compgen.programs(ctx.rng.fork("compile"), nprog)
+    fam = {cid: "core" for cid, _, _ in progs}
+    feats_of = {cid: f for cid, _, f in progs}
+    cases = [(cid, src) for cid, src, _ in progs]
+    for it in general_items:
+        if it["ctx"] in ("far", "far_tail", "far_upvalue", "edge", "edge1", "edge2"):
+            continue      # 230-260 live vars: slow in the allocator model; the general family only measures the fragment's reach
+        cid = "g%d.%s" % (it["prog"], it["ctx"])
+        fam[cid] = "general"
+        cases.append((cid, it["src"]))
+    src_of = dict(cases)
+    chunks = [cases[i:i + 200] for i in range(0, len(cases), 200)]
+    res = {}
+    nglob = 0
+    with cf.ThreadPoolExecutor(16) as ex:
+        for (r, err) in ex.map(lambda c: _compser_and_model(hx, exe, c), chunks):
+            if r is None:
+                broken.append("compile correspondence pipeline: " + err)
+                ctx.broken.append(broken[-1])
+                continue
+            res.update(r[0])
+            nglob = r[1]
+    st = {f: {"compiled": 0, "in_fragment": 0, "near": 0, "far": 0, "outside": 0, "compile_error_or_multiform": 0, "diffs": 0, "unexpanded_differs": 0} for f in ("core", "general")}
+    diffs = []
+    feats = {}
+    for cid, d in sorted(res.items()):
+        f = st[fam.get(cid, "core")]
+        if "real" not in d:
+            f["compile_error_or_multiform"] += 1
+            continue
+        f["compiled"] += 1
+        if d.get("same") is False:
+            f["unexpanded_differs"] += 1
+        mo = d.get("model") or "MISSING"
+        if mo == "OUT":
+            f["outside"] += 1
+            continue
+        f["in_fragment"] += 1
+        tag, body = mo[:1], mo[1:].strip()
+        f["near" if tag == "N" else "far"] += 1
+        real = d["real"].strip()
+        if " [ " in (" " + d.get("form", "") + " ") and body != real:
+            # Lang.Expr bracket tuples carry no position (the compiler moves its mapping cursor on them): words only
+            body, real = _strip_smap(body), _strip_smap(real)
+        if body != real or tag == "-":
+            f["diffs"] += 1
+            diffs.append({"case": cid, "source": src_of.get(cid, "")[:3000], "real": real[:1500], "model": (tag + " " + body)[:1500]})
+        for ft in feats_of.get(cid, []):
+            feats[ft] = feats.get(ft, 0) + 1
+    if diffs:
+        broken.append("correspondence Compile/Model vs real compile.c/specials.c: %d programs with differing funcdef trees, first %r" % (len(diffs), diffs[0]))
+        ctx.broken.append(broken[-1])
+    g = st["general"]
+    return {"comp_cases": st["core"]["compiled"] + g["compiled"], "comp_core": st["core"], "comp_general": g,
+            "comp_general_fraction_in_fragment": round(g["in_fragment"] / g["compiled"], 4) if g["compiled"] else None,
+            "comp_core_fraction_in_fragment": round(st["core"]["in_fragment"] / st["core"]["compiled"], 4) if st["core"]["compiled"] else None,
+            "comp_diffs": len(diffs), "comp_first_diffs": diffs[:3], "comp_core_feature_histogram": dict(sorted(feats.items())),
+            "comp_globals_regenerated": nglob, "comp_contexts": compgen.CONTEXTS,
+            "comp_sample": [c for c in cases[:2]]}
+
+
 EXPAND = os.path.join(VERIF, "harness/C02/expand.janet")
 
 
